@@ -69,10 +69,41 @@ func band(pix []uint8, stride int, s Spec) {
 		}
 		return
 	}
+	if s.Fill == "flatrows" || s.Fill == "flatcols" || s.Fill == "flat" {
+		// every row one colour (stripes, letterboxing, page margins; bands of 1-3 equal rows), every column one
+		// colour, or the whole picture one colour: what run-length shortcuts and "same as the last pixel" memos key on
+		bpp := map[string]int{"NRGBA": 4, "RGBA": 4, "NRGBA64": 8, "RGBA64": 8, "Gray": 1, "Gray16": 2, "Alpha": 1, "Alpha16": 2, "CMYK": 4, "Paletted": 1}[s.Type]
+		if bpp == 0 || stride < bpp {
+			return
+		}
+		k := 1 + int(s.Seed%3)
+		rows := len(pix) / stride
+		for y := 0; y < rows; y++ {
+			row := pix[y*stride : y*stride+stride]
+			from := row
+			switch s.Fill {
+			case "flatrows":
+				from = pix[(y/k)*k*stride:]
+			case "flat":
+				from = pix
+			case "flatcols":
+				copy(row, pix[:stride])
+				continue
+			}
+			for x := 0; x+bpp <= len(row); x += bpp {
+				copy(row[x:x+bpp], from[:bpp])
+			}
+		}
+		return
+	}
 	if stride <= 0 || (s.Fill != "rowbands" && s.Fill != "colbands" && s.Fill != "sparse") {
 		return
 	}
-	h := func(i int) uint64 { x := uint64(i)*0x9E3779B97F4A7C15 + s.Seed; x ^= x >> 29; return x * 0xBF58476D1CE4E5B9 >> 33 }
+	h := func(i int) uint64 {
+		x := uint64(i)*0x9E3779B97F4A7C15 + s.Seed
+		x ^= x >> 29
+		return x * 0xBF58476D1CE4E5B9 >> 33
+	}
 	for y := 0; y*stride < len(pix); y++ {
 		row := pix[y*stride:]
 		if len(row) > stride {
@@ -415,7 +446,7 @@ func Gen(t *rapid.T, label string, o GenOpts) Spec {
 	if !ycc && rapid.IntRange(0, 5).Draw(t, label+"widestride") == 0 {
 		s.StrideExtra = rapid.SampledFrom([]int{1, 2, 3, 4, 5, 8, 13, 64}).Draw(t, label+"strideextra")
 	}
-	fills := []string{"prng", "prng", "prng", "ff", "zero", "ramp", "rowbands", "colbands", "sparse", "edges"}
+	fills := []string{"prng", "prng", "prng", "ff", "zero", "ramp", "rowbands", "colbands", "sparse", "edges", "flatrows", "flatrows", "flatcols", "flat"}
 	if o.Orbit {
 		fills = append(fills, "orbit-h", "orbit-v")
 	}
